@@ -110,7 +110,11 @@ func (s *sched) run(strategy int, budget int) {
 	}
 	var cur *sthread
 	preempt := map[int]bool{}
-	if strategy >= 1 {
+	if strategy == 3 {
+		// one early pre-emption: the first thread is stopped after a few of its own steps (between two of its first
+		// atomic actions), everybody else runs to completion, then it resumes
+		preempt[1+s.r.intn(10)] = true
+	} else if strategy >= 1 {
 		for i := 0; i < 1+s.r.intn(3); i++ {
 			preempt[1+s.r.intn(120)] = true
 		}
@@ -603,6 +607,14 @@ func genProgram(r *rng, kind string, focus string) *program {
 			} else {
 				ins = append(ins, fmt.Sprintf("store extra%d %s", j, v()))
 			}
+		}
+		if focus == "" && r.chance(1, 2) {
+			// a lookup of an entry that stays put, started just before the table is replaced
+			look := "load "
+			if isCache {
+				look = "get "
+			}
+			p.threads = append(p.threads, []string{look + fmt.Sprintf("k%d", r.intn(per*p.small)), look + fmt.Sprintf("k%d", r.intn(per*p.small))})
 		}
 		wi := 0 // index of the inserting thread; thread 0 belongs to the reader in reader programs
 		if focus == "reader" {
@@ -1712,7 +1724,7 @@ func schedMode(a map[string]string) {
 	for p := 0; p < nprog; p++ {
 		prog := genProgram(r, kind, focus)
 		for sidx := 0; sidx < nsched; sidx++ {
-			strategy := sidx % 3
+			strategy := sidx % 4
 			ss := r.next()
 			freeze := -1
 			if focus == "reader" {
